@@ -22,8 +22,13 @@ open Rxn Rxn.Sst Rxn.Wal
 /-- the fields package is little-endian throughout (the model's `leBytes`/`leVal` are tied to it) -/
 theorem fields_little_endian : Facts.fieldsLittleEndian = 1 := by decide
 
-/-- lock shape behind the model's atomic WAL steps: `Cut`, `Truncate`, `Rotate` run entirely under `w.mu` (only the
-sealed check precedes the lock) and `Put`/`Delete` never touch the segment list (structural fact, hard obligation) -/
+/-- what the structural recogniser `walMuCoversSegments` (tools/gofacts/facts_c17.go, hard obligation) finds in
+`dkv/wal/writer.go`, and no more: (1) `Cut`, `Truncate`, `Rotate` are `mu.Lock(); defer mu.Unlock()` over the rest of
+their body with no segment access before the lock; (2) `Put`/`Delete` never mention `sealedBuffers` and `Truncate`
+never mentions the writer's `activeBuffer`/`latestSeqNum` (the unlocked foreground writes and the concurrent
+`Truncate` work on disjoint fields); (3) `Put`, `Delete`, `Cut`, `Truncate`, `Rotate`, `Save` start with the `sealed`
+guard and `sealed` is only ever set, once, by `Rotate`'s `CompareAndSwap(false, true)`. It is a stand-alone fact
+(no proof consumes it); it is the reason the model may treat each of these calls as one step on one writer. -/
 theorem wal_lock_shape : Facts.walMuCoversSegments = 1 := by decide
 
 /-- `ensureMetadataLoaded` sets `metadataLoaded` only after `loadFooter` returned, inside one critical section that
@@ -155,6 +160,26 @@ theorem writeRun_table_bytes (target : Nat) (ht : 0 < target) (es : List Entry) 
     ∀ c ∈ writeRun target es, (encEntries c).length < offMod :=
   Sst.writeRun_table_bytes target ht es M hM hfit
 
+/-- the whole path a restored DKV takes for every table of a compaction/flush run: the table's document goes through
+its JSON text, the table is re-opened from the parsed document (sizes taken from it), and `Get` answers like the
+slice of the run — for runs of any length, under the entry-size bound of `writeRun_table_bytes` -/
+theorem writeRun_tables_reopen_via_json (target : Nat) (ht : 0 < target) (es : List Entry) (hwf : ∀ e ∈ es, e.WF)
+    (hs : SortedKeys es) (M : Nat) (hM : ∀ e ∈ es, Facts.sstEntryOverhead + e.key.length + e.val.length ≤ M)
+    (hfit : maxBuffer target + M ≤ offMod) (uri : List Char) (hu : PlainUri uri) :
+    ∀ c ∈ writeRun target es, ∀ key,
+      (parseDoc (jsonDoc (docOf c) uri)).bind (fun p =>
+        (openDoc p.1 (encTable c)).map (fun m => get m p.1.entriesSize (encTable c) key))
+      = some (GetRes.ofOption (lookup c key)) := by
+  intro c hc key
+  have hsz := Sst.writeRun_table_bytes target ht es M hM hfit c hc
+  have hmem : ∀ e ∈ c, e ∈ es := by
+    intro e he
+    rw [← writeRun_flatten target es]; exact List.mem_flatten.mpr ⟨c, hc, he⟩
+  rw [parseDoc_jsonDoc _ _ hu]
+  show (openDoc (docOf c) (encTable c)).map _ = _
+  rw [show openDoc (docOf c) (encTable c) = some (metaOf c) from loadFooter_encTable c hsz]
+  exact congrArg some (get_encTable c (fun e he => hwf e (hmem e he)) ((writeRun_pairwise target es hs).2 c hc) hsz key)
+
 /-- `Table.Get` is correct with ANY bloom filter that answers "yes" (a false positive on an absent key included:
 before the first key (D19), between keys, between index blocks, after the last key): the bloom gate only ever
 short-cuts to "not found", everything else is decided by the index search and the bounded scan -/
@@ -231,9 +256,18 @@ theorem wal_replay (ops : List Op) (id m f after : Nat)
 
 /-- a sealed writer is immutable: the writer rotated away after `ops₁` is what those operations built, at the same
 position and with the same content after ANY later history `ops₂` of its successors — so the bytes `Save` writes for
-it, whenever the asynchronous save runs, depend only on the operations before its `Rotate`. (The functional model
-has this by construction; the lockstep ops `wrotl … wsavel` hold the real writer — whose successors share its
-segment buffers — to it.) -/
+it, whenever the asynchronous save runs, depend only on the operations before its `Rotate`.
+In the functional model this holds BY CONSTRUCTION (`Log.apply` never touches `sealed`); its weight is what it
+asks of the code, which is established elsewhere:
+* successors do not share mutable storage with the sealed writer — not provable from source shape; held to the real
+  `wal.Writer` by the lockstep ops `wrotl … wsavel` (the successor truncates carried segments, cuts and appends
+  before the old writer is saved; seeded change C17-5 is exactly a violation of this);
+* no method mutates a writer after `Rotate` sealed it — `wal_lock_shape` (3): every mutating method panics at entry
+  on a sealed writer;
+* no `Truncate` is in flight between its guard and its lock while `Rotate` runs (the guard precedes the lock in
+  `writer.go`) — NOT a fact of `dkv/wal`; in `dkv/db.go` `Rotate` runs inside the `db.mu` section of `DB.Checkpoint`
+  and `Truncate` inside the `db.mu` section of the flush commit: C08's hard facts `Facts.c08CaptureUnderLock` and
+  `Facts.c08FlushTruncates`. -/
 theorem wal_sealed_writer_immutable (id m : Nat) (ops₁ ops₂ : List Op) :
     let l := (Log.new id m).run (ops₁ ++ Op.rotate :: ops₂)
     let k := ((Log.new id m).run ops₁).sealed.length
